@@ -8,9 +8,9 @@ head = "## 12. Seeded changes (independent sub-agents) and which checks catch th
 i = s.index(head)
 table = subprocess.run([sys.executable, os.path.join(HERE, "tools", "seed_table.py")], capture_output=True, text=True).stdout
 text = head + """
-Eleven rounds of 19 fresh sub-agents each (209 changes). Every agent got only the text of one property and its own scratch
-git worktree of /repo under /tmp (nothing from /verif; rounds 2-11 were additionally told which ideas had already
-been used for that property, so that the ten changes per property differ in mechanism (rounds 5-11 were also asked to stay out of the files and functions the earlier ones had touched)). Each wrote one realistic
+Twelve rounds of 19 fresh sub-agents each (228 changes). Every agent got only the text of one property and its own scratch
+git worktree of /repo under /tmp (nothing from /verif; rounds 2-12 were additionally told which ideas had already
+been used for that property, so that the ten changes per property differ in mechanism (rounds 5-12 were also asked to stay out of the files and functions the earlier ones had touched)). Each wrote one realistic
 regression (a tidy-up, an off-by-one, a moved statement, a swapped argument, ...) that still passes the 88 baseline
 tests, plus a stand-alone demonstration. Each change was confirmed by `tools/seed_collect.sh` in a *fresh* scratch
 worktree (demo exits 0 on HEAD, 1 with the patch; baseline pytest command passes with the patch) and then evaluated by
@@ -18,9 +18,9 @@ worktree (demo exits 0 on HEAD, 1 with the patch; baseline pytest command passes
 live in `seeded/<id>/` (`patch.diff`, `demo.py`, `notes.md`, `confirm.json`, `eval.json`, `meta.json`); none was ever
 committed to /repo, all worktrees were removed.
 
-**Result: all 209 were reported by their own property's quick check as `VIOLATION` with a concrete failing input** (not
-merely as a broken correspondence); 208 still are - C16-k has since been neutralised by a repair of /repo that its own author's side remark led to (1237b39; `seeded/C16-k/NEUTRALISED.md`). That was not so at first: 9 of the first 19, 14 of the second 19, 13 of the
-third 19, 8 of the fourth 19, 11 of the fifth 19, 14 of the sixth 19, 9 of the seventh 19, 11 of the eighth 19, 11 of the ninth 19, 11 of the tenth 19 and 8 of the eleventh 19 were initially missed or seen only as a broken correspondence. Each miss was a hole in a *generator* or a
+**Result: all 228 were reported by their own property's quick check as `VIOLATION` with a concrete failing input** (not
+merely as a broken correspondence); 227 still are - C16-k has since been neutralised by a repair of /repo that its own author's side remark led to (1237b39; `seeded/C16-k/NEUTRALISED.md`). That was not so at first: 9 of the first 19, 14 of the second 19, 13 of the
+third 19, 8 of the fourth 19, 11 of the fifth 19, 14 of the sixth 19, 9 of the seventh 19, 11 of the eighth 19, 11 of the ninth 19, 11 of the tenth 19, 8 of the eleventh 19 and 7 of the twelfth 19 were initially missed or seen only as a broken correspondence. Each miss was a hole in a *generator* or a
 missing *clause*, never a reason to weaken a check; what was added (all of it also runs on the unchanged tree):
 
 * round 1: coarse search grids and call provenance (C02), budget stress + reserve correspondence (C03), runs started at
@@ -141,6 +141,20 @@ missing *clause*, never a reason to weaken a check; what was added (all of it al
   `poll_mesh_multiplier = 3` with hard bounds 1e6 plausible widths away at meshes below the spacing of `lb` (helper level only), the initial
   GP fit conditions on the whole log whatever `n_train_max` says (as modelled: `fevals`), `gp.s2` is an all-NaN column in unknown-noise mode,
   `np.seterr(divide="ignore")` is left set after the first poll step.
+
+* round 12: start points handed over as float32 / float16 arrays with decimal bounds the type cannot represent (C01: the RETURNED x, cast back to
+  that type, left the box), a start point BADS draws itself compared across equivalent spellings of the bounds, with the process-wide generator
+  left in another state before every construction (C08), an earlier problem with its start point on a hard bound as foreign history (C07),
+  a log-transformed variable next to an unbounded one in the same problem (C09), "the search step evaluates the point its strategy proposed" +
+  bounds whose internal image lies on the search mesh with the optimum beyond the upper face (C18), stateful callable OBJECTS as target and
+  constraint, used again after the run (C19), a hunt for singular direction bases among 30 000 random outcomes per scope for D = 4..6 and mesh
+  ratios 2..4 in the failing-input search (C14: the scripted-RNG differential saw the regression at once, but as a broken correspondence only -
+  the singular bases occur for 2e-4 of the outcomes at D = 5). Not pursued from the side remarks: `options={'useroptions': ...}` is accepted and
+  the caller's set under that key is written to (an internal name of the `Options` class; rejecting it would also reject an `Options` object
+  handed over as options), `'status'` is an accepted key of `OptimizeResult` that no run ever sets (the set of fields a run exposes is fixed all
+  the same), a target holding a lock cannot be deep-copied into the result (TypeError at the end of `optimize()`), ten consecutive failures of one
+  refit end in `UnboundLocalError` (beyond the property's "several times in a row"; the checks generate up to four), `accelerate_mesh_steps = 0`
+  -> IndexError, `x0 = [1e308]` with plausible bounds +-1e-300 on an unbounded variable gives an infinite internal start point.
 
 Two of those generator extensions exposed genuine defects on the pinned tree (section 11: `noise_size` with specified
 noise; three boolean advanced options), which were repaired by `fix:` commits; one more (`fit_lik=False`) is a known finding.
